@@ -7,6 +7,7 @@ def parseOp (j : J) : Except String Op := do
   if k = "arrive" then
     pure (.arrive (← j.bytes "fr") (← j.nat "port") (← j.optNat "dl"))
   else if k = "use" then pure (.use (← j.nat "id"))
+  else if k = "usectl" then pure (.useCtl (← j.nat "id") (← j.nat "dl"))
   else if k = "setmiss" then pure (.setMiss (← j.nat "n"))
   else throw s!"unknown op {k}"
 
